@@ -171,7 +171,8 @@ def rule_copy_factory(P):
     R.functions.add(f["inst"])
 
     def atoms(pred):
-        return [b for b in g.nodes if b.kind == "branch" and b.cond and len(b.succ) == 2 and pred(re.sub(r"\s+", "", b.cond["text"]))]
+        # a negated test `!X` is the same atom X; true_edge() below picks the edge on which X itself holds
+        return [b for b in g.nodes if b.kind == "branch" and b.cond and len(b.succ) == 2 and pred(re.sub(r"\s+", "", b.cond["text"]).lstrip("!"))]
 
     def true_edge(b):
         return 1 if b.cond.get("neg") else 0
